@@ -106,6 +106,10 @@ def item_or_raise(x, tag=None):
             except Exception:
                 pass
         return ('r', 'unstuck')
+    if x == 'BIG':
+        return ('r', 'B' * 100000)      # a partial result larger than 64 KiB
+    if x == 'HUGE':
+        return ('r', 'H' * (8 << 20))   # far larger than any pipe buffer: the child stays blocked in write() until the parent reads
     if x == 'UNSENDABLE':
         return threading.Lock()     # cannot even be pickled by the child
     if x == 'UNPICKLABLE':
